@@ -158,7 +158,7 @@ def make_cells(gi, tier):
         if ad.shape != (gi.na, gi.na) or Ad.shape != (gi.na, gi.na):
             raise Violation("%s: Ad/ad shapes %s/%s, expected (%d, %d)" % (nm, Ad.shape, ad.shape, gi.na, gi.na))
         want = ref.expm(ad)
-        tol = 3 * L.BAND_TOL if L.band_result(gi, gi.toM(X)) else 1e-9
+        tol = 3 * L.BAND_TOL * (1 + float(np.max(np.abs(want)))) if L.band_result(gi, gi.toM(X)) else 1e-9
         L.close(Ad, want, "%s: Ad_exp(x) vs expm(ad_x)" % nm, atol=tol, scale=float(np.max(np.abs(want))) * (1 + float(np.max(np.abs(x)))),
                 x=x.tolist())
 
